@@ -582,10 +582,10 @@ def r6_verdicts(ctx):
     'no legal move' combined with 'in check' (= C06.R2: decided from the full legal-move list, not from a shortcut that counts the moves of
     pinned pieces)"""
     from . import c06
-    import_rules(ctx, 'C18.R6-verdict-source', [c06.r2_tables],
+    import_rules(ctx, 'C18.R6-verdict-source', [c06.r2_tables, c06.r1_in_check],
                  'stalemate scores zero and mate scores dominate only if game_ending recognises them: a "has any move" shortcut that skips the '
                  'king-safety simulation calls a stalemated side with a pinned piece "not ended" and the material balance is returned instead of 0',
-                 keep=lambda s: 'game_ending' in s['function'] or 'floor' in s['instance'], floor=3)
+                 keep=lambda s: 'game_ending' in s['function'] or 'in_check' in s['function'] or 'floor' in s['instance'], floor=3)
 
 
 def run(ctx):
